@@ -57,7 +57,19 @@ impl Exec for XCtorExec {
                 let region = MmapRegion::<()>::from_range(MmapRange::new_unix(size, Some(FileOffset::new(f.try_clone().expect("harness: dup"), 0)), GuestAddress(gbase)))
                     .expect("harness: from_range");
                 let mapped = mapped_bytes_of(&name);
-                match GuestRegionMmap::new(region, GuestAddress(gbase)) {
+                let res = match line["a"]["api"].as_str().unwrap_or("new") {
+                    // the convenience constructors create the mapping themselves
+                    "from_range_file" => {
+                        drop(region);
+                        GuestRegionMmap::<()>::from_range(GuestAddress(gbase), size, Some(FileOffset::new(f.try_clone().expect("harness: dup"), 0)))
+                    }
+                    "from_range_anon" => {
+                        drop(region);
+                        GuestRegionMmap::<()>::from_range(GuestAddress(gbase), size, None)
+                    }
+                    _ => GuestRegionMmap::new(region, GuestAddress(gbase)),
+                };
+                match res {
                     Ok(g) => json!({"k": "ok", "start": g.start_addr().0, "len": g.len(), "last": g.last_addr().0, "mapped": mapped}),
                     Err(_) => json!({"k": "err", "e": "InvalidGuestRegion"}),
                 }
@@ -91,6 +103,11 @@ impl Exec for XCtorExec {
         } else if fixed {
             range.set_flags(libc::MAP_SHARED | libc::MAP_FIXED);
         }
+        let req_prot = line["a"]["prot"].as_i64().map(|p| p as i32);
+        if let Some(p) = req_prot {
+            range.set_prot(p);
+        }
+        let rw = req_prot.map(|p| p & 3 == 3).unwrap_or(true);
         if let Some(k) = line["a"]["fail"].as_str() {
             match k {
                 "map" => fail_next("map"),
@@ -118,7 +135,7 @@ impl Exec for XCtorExec {
                                    "xflags": region.xen_mmap_flags(), "xdata": region.xen_mmap_data(),
                                    "mapped": mapped_bytes_of(&name)});
                 // coherence: byte i of the region <-> byte of the file, both directions (through the Bytes interface)
-                if size > 0 && has_file {
+                if size > 0 && has_file && rw {
                     let file_at = |i: u64| -> u64 {
                         // advance-mapped grants and foreign mappings are addressed by guest address / from file offset 0
                         if mflags & 2 != 0 { base + i } else if mflags & 1 != 0 { i } else { foff + i }
